@@ -27,6 +27,9 @@ func init() {
 		"(*sync.Cond).Signal":     noopCall,
 		"(*sync.Cond).Broadcast":  noopCall,
 	}
+	for _, n := range writerHelpers {
+		specialCalls[n] = writerMonitorCall
+	}
 	specialModKeys = map[string]func(e *Enc, c *ssa.CallCommon, m map[string]*Sort){
 		"(*sync.Mutex).Lock":      lockModKeys,
 		"(*sync.Mutex).Unlock":    lockModKeys,
@@ -38,6 +41,149 @@ func init() {
 		"(*sync.Cond).Signal":     func(*Enc, *ssa.CallCommon, map[string]*Sort) {},
 		"(*sync.Cond).Broadcast":  func(*Enc, *ssa.CallCommon, map[string]*Sort) {},
 	}
+	for _, n := range writerHelpers {
+		specialModKeys[n] = func(e *Enc, c *ssa.CallCommon, m map[string]*Sort) {
+			if e.TopC != nil && len(e.TopC.Monitor) > 0 {
+				m[monQKey], m[monKKey] = IntS, IntS
+				return
+			}
+			if callee := c.StaticCallee(); callee != nil {
+				if fc := e.P.Cs.Funcs[funcKey(callee)]; fc != nil {
+					e.contractModKeys(fc, callee, m)
+				}
+			}
+		}
+	}
+}
+
+// The formatter's output primitives.  Under a contract with a writer monitor
+// (`monitor <automaton> sink w expects s` where w is not a byte slice) a call
+// mustWriteByte(w, b) / mustWriteString(w, x) steps the ghost automaton over the
+// bytes written; the monitor state lives in the ghost state keys below.  Outside
+// such a contract the helpers have no effect on modelled state.
+var writerHelpers = []string{
+	"github.com/martian-lang/martian/martian/syntax.mustWriteByte",
+	"github.com/martian-lang/martian/martian/syntax.mustWriteString",
+}
+
+const monQKey, monKKey = "GH$monq", "GH$monk"
+
+func (f *Frame) writerMonitor() *monitorSpec {
+	ms := f.topMonitor()
+	if ms == nil {
+		return nil
+	}
+	v, ok := f.topFrame().params[ms.sink]
+	if !ok || v.K == VSlice {
+		return nil
+	}
+	return ms
+}
+
+func (f *Frame) topFrame() *Frame {
+	if f.E.top != nil {
+		return f.E.top
+	}
+	return f
+}
+
+func writerMonitorCall(f *Frame, instr ssa.Instruction, callee *ssa.Function, args []*Val, setResult func(*Val)) {
+	ms := f.writerMonitor()
+	if ms == nil {
+		if fc := f.E.P.Cs.Funcs[funcKey(callee)]; fc != nil {
+			f.contractCall(instr, callee, fc, args, setResult)
+			return
+		}
+	}
+	defer setResult(nil)
+	if ms == nil {
+		f.E.Trusted["syntax.mustWriteByte/mustWriteString: no effect on modelled state (output is not modelled outside a writer monitor)"] = true
+		return
+	}
+	sink := f.topFrame().params[ms.sink]
+	if !termEq(args[0].X, sink.X) && !(args[0].K == VIface && sink.K == VIface && termEq(args[0].X, sink.X)) {
+		f.E.fail("write to a writer other than the monitored sink %s", ms.sink)
+	}
+	src := f.monitorSource(ms)
+	q := f.st.Get(monQKey, IntS)
+	k := f.st.Get(monKKey, IntS)
+	f.E.noteVars(q)
+	f.E.noteVars(k)
+	desc := f.E.P.exprTextAt(instr.Pos(), isExprNode)
+	where := f.where(instr.Pos())
+	step := func(b *Term, active *Term) {
+		b = f.E.name(b, f.prefix+"mb")
+		g := f.E.name(And(f.curGuard, active), f.prefix+"g_mon")
+		nq := f.monitorFun(ms.name, "next", q, b)
+		ne := f.monitorFun(ms.name, "nemit", q, b)
+		f.E.addObl("monitor."+ms.name+".step", desc, g, Neq(nq, f.monitorConst(ms.name, "REJECT")), where, f.props())
+		var emit []*Term
+		for j, en := range []string{"e1", "e2", "e3", "e4"} {
+			if _, ok := f.E.P.Spec.Syms[ms.name+"_"+en]; !ok {
+				break
+			}
+			ev := f.monitorFun(ms.name, en, q, b)
+			at := Add(k, IntLit(int64(j)))
+			emit = append(emit, Implies(Ge(ne, IntLit(int64(j+1))), And(Lt(at, src.Len), Eq(Select(src.Arr, Add(src.Off, at)), ev))))
+		}
+		f.E.addObl("monitor."+ms.name+".emit", desc, g, And(emit...), where, f.props())
+		q = f.E.name(Ite(active, nq, q), f.prefix+"mq")
+		k = f.E.name(Ite(active, Add(k, ne), k), f.prefix+"mk")
+	}
+	switch {
+	case strings.HasSuffix(fullName(callee), "mustWriteByte"):
+		step(args[1].X, True)
+	default:
+		y := args[1]
+		if y.K != VBytes {
+			f.E.fail("monitored write of an opaque string (needs mode bytes)")
+		}
+		if n, ok := y.Len.IntVal(); ok && n <= maxUnroll {
+			for i := int64(0); i < n; i++ {
+				step(Select(y.Arr, Add(y.Off, IntLit(i))), True)
+			}
+		} else {
+			// a run of plain bytes copied from the source: by induction over the run (trusted
+			// schema) from the discharged lemma  plain(b) => next(RUN,b)=RUN, nemit=1, e1=b
+			run := f.monitorConst(ms.name, "RUN")
+			jb := Bound{Name: fmt.Sprintf("j!run%d", f.E.nextQ()), S: IntS}
+			jv := Var(jb.Name, IntS)
+			yb := Select(y.Arr, Add(y.Off, jv))
+			inRun := And(Ge(jv, IntLit(0)), Lt(jv, y.Len))
+			f.E.addObl("monitor."+ms.name+".run.state", desc, f.curGuard, Or(Eq(y.Len, IntLit(0)), Eq(q, run)), where, f.props())
+			f.E.addObl("monitor."+ms.name+".run.plain", desc, f.curGuard,
+				Forall([]Bound{jb}, Implies(inRun, f.monitorFunB(ms.name, "plain", yb))), where, f.props())
+			f.E.addObl("monitor."+ms.name+".run.emit", desc, f.curGuard,
+				And(Le(Add(k, y.Len), src.Len), Forall([]Bound{jb}, Implies(inRun, Eq(yb, Select(src.Arr, Add(src.Off, Add(k, jv))))))), where, f.props())
+			if !f.E.runLemma[ms.name] {
+				if f.E.runLemma == nil {
+					f.E.runLemma = map[string]bool{}
+				}
+				f.E.runLemma[ms.name] = true
+				bb := Bound{Name: "b!run", S: IntS}
+				bv := Var(bb.Name, IntS)
+				f.E.addObl("monitor."+ms.name+".run.lemma", "plain bytes keep the run state and emit themselves", True,
+					Forall([]Bound{bb}, Implies(f.monitorFunB(ms.name, "plain", bv),
+						And(Eq(f.monitorFun(ms.name, "next", run, bv), run), Eq(f.monitorFun(ms.name, "nemit", run, bv), IntLit(1)), Eq(f.monitorFun(ms.name, "e1", run, bv), bv)))),
+					where, f.props())
+				f.E.Trusted["induction over the length of a run of plain bytes (schema), from the discharged lemma monitor."+ms.name+".run.lemma"] = true
+			}
+			k = f.E.name(Add(k, y.Len), f.prefix+"mk")
+		}
+	}
+	f.st = f.st.Clone()
+	f.st.Set(monQKey, IntS, q)
+	f.st.Set(monKKey, IntS, k)
+}
+
+func (f *Frame) monitorFunB(mon, name string, args ...*Term) *Term {
+	full := mon + "_" + name
+	sym, ok := f.E.P.Spec.Syms[full]
+	if !ok {
+		f.E.fail("monitor predicate %s not found in spec library", full)
+	}
+	f.E.Uses[sym.Lib] = true
+	return App(full, BoolS, args...)
 }
 
 func noopCall(f *Frame, instr ssa.Instruction, callee *ssa.Function, args []*Val, setResult func(*Val)) {
@@ -406,7 +552,7 @@ func (f *Frame) topMonitor() *monitorSpec {
 }
 
 func (f *Frame) monitorSource(ms *monitorSpec) *Val {
-	top := f
+	top := f.topFrame()
 	v, ok := top.params[ms.source]
 	if !ok {
 		f.E.fail("monitor source %s is not a parameter", ms.source)
